@@ -14,10 +14,11 @@ describe(
     "Symbolic set algebra (SETALG) over every path of the main loop of remap_curie_prefixes: the record's CURIE names after the update "
     "contain its names before, except possibly `old` when a guard that consults the converter justifies handing it over (D1/D2); `new` "
     "is canonical afterwards; URI fields and pattern are never stored (frame); every popped record is appended to the output and the "
-    "output is the untouched remainder plus the modified records (pairing); skip and clash paths store nothing.",
+    "output is the untouched remainder plus the modified records (pairing); skip and clash paths store nothing; "
+    "D6: _order_curie_remapping raises its four documented errors and returns the layer-by-layer peeling of the remapping graph as accumulated.",
     ["CPython ast", "set.union/difference semantics", "the validator invariant canonical not in synonyms (C04)"],
     [],
-    ["_order_curie_remapping's validation and topological ordering (duplicate keys/values, inconsistency, cycles): value-level graph reasoning"],
+    ["the exact conditions of _order_curie_remapping's three validations (duplicate keys/values, inconsistency): value-level reasoning over the counters"],
 )
 
 RECON = "curies.reconciliation"
